@@ -60,7 +60,9 @@ class Revision(UserString):
 
     # parent __hash__() isn't inherited when __eq__() is defined in the child class
     # https://docs.python.org/3/reference/datamodel.html#object.__hash__
-    __hash__ = UserString.__hash__
+    # revisions compare as integers ("" == "0", "01" == "1"), so they hash as integers
+    def __hash__(self):
+        return hash(self._revint)
 
     def __init__(self, *args, **kwargs):
         super().__init__(*args, **kwargs)
